@@ -46,6 +46,7 @@ type Task struct {
 	site    string
 	waitOn  interface{}
 	stalled time.Time // not chosen before this simulated instant (stall fault)
+	delayed uint64    // not chosen before this decision number (site delay), unless nothing else can run
 	fn      func()
 }
 
@@ -57,6 +58,10 @@ type Config struct {
 	Procs           int
 	MapSeed         uint64
 	MaxDecisions    uint64
+	// Site delays ("buggify"): a pseudo-random subset of yield sites (chosen by hashing the site with the
+	// seed, DelayPermille of them) holds every task that reaches it back for DelayLen decisions.
+	DelayPermille int
+	DelayLen      int
 }
 
 var (
@@ -223,10 +228,57 @@ func Park(site string) {
 	mu.Lock()
 	t.st = stRunnable
 	t.site = site
+	if cfg.DelayPermille > 0 && siteSelectedLocked(site) {
+		t.delayed = seq.Load() + uint64(cfg.DelayLen)
+		stats["site_delays"]++
+	}
 	mu.Unlock()
 	kickNB()
 	<-t.wake
 }
+
+var siteSel = map[string]bool{}
+
+func siteSelectedLocked(site string) bool {
+	v, ok := siteSel[site]
+	if !ok {
+		v = mix(strHash(site), cfg.Seed)%1000 < uint64(cfg.DelayPermille)
+		siteSel[site] = v
+		if v {
+			stats["delay_sites"]++
+		}
+	}
+	return v
+}
+
+// callerSite names the repo code location that called a sync primitive (skip frames above the caller).
+func callerSite(skip int) string {
+	pc, _, _, ok := runtime.Caller(skip + 1)
+	if !ok {
+		return "?"
+	}
+	siteMu.Lock()
+	s, hit := siteCache[pc]
+	siteMu.Unlock()
+	if hit {
+		return s
+	}
+	f := runtime.FuncForPC(pc)
+	file, line := f.FileLine(pc)
+	if i := strings.Index(file, "/pkg/"); i >= 0 {
+		file = file[i+1:]
+	}
+	s = fmt.Sprintf("%s:%d", file, line)
+	siteMu.Lock()
+	siteCache[pc] = s
+	siteMu.Unlock()
+	return s
+}
+
+var (
+	siteMu    sync.Mutex
+	siteCache = map[uintptr]string{}
+)
 
 // Yield is Park under another name (before an operation rather than after a wake-up).
 func Yield(site string) { Park(site) }
@@ -315,6 +367,28 @@ func Run(main func()) {
 					continue
 				}
 				runnable = append(runnable, t)
+			}
+		}
+		if cfg.DelayPermille > 0 && len(runnable) > 0 {
+			cur := seq.Load()
+			var free []*Task
+			for _, t := range runnable {
+				if t.delayed <= cur {
+					free = append(free, t)
+				}
+			}
+			if len(free) > 0 {
+				runnable = free
+			} else {
+				// everything runnable is held back: release the one whose delay ends first
+				best := runnable[0]
+				for _, t := range runnable {
+					if t.delayed < best.delayed {
+						best = t
+					}
+				}
+				best.delayed = 0
+				runnable = []*Task{best}
 			}
 		}
 		if opBudget > 0 && now.Sub(opStart) > opBudget {
